@@ -187,6 +187,17 @@ fn tetris_lib(g: &Graph, listing: &[usize]) -> layout21tetris::library::Library 
             lay.instances.add(tet::instance::Instance { inst_name: format!("i{}", k), cell: cells[j].clone(), loc: tet::placement::Place::Abs(Xy::new(PrimPitches::x(3 * k as isize), PrimPitches::y(0))), reflect_horiz: false, reflect_vert: false });
         }
     }
+    // leaf cells come in all view combinations: odd-numbered sinks are abstract-only (no layout), every fourth cell has both views
+    for i in 0..n {
+        let mut c = cells[i].write().unwrap();
+        let abs = tet::abs::Abstract::new(format!("c{}", i), 0, tet::outline::Outline::rect(2, 2).unwrap());
+        if g[i].is_empty() && i % 2 == 1 {
+            c.abs = Some(abs);
+            c.layout = None;
+        } else if i % 4 == 0 {
+            c.abs = Some(abs);
+        }
+    }
     let mut lib = tet::library::Library::new("tlib");
     for &i in listing {
         lib.cells.push(cells[i].clone());
